@@ -27,6 +27,7 @@ func Families(quick bool) []*prog.Case {
 	cases = append(cases, famStr(quick)...)
 	cases = append(cases, famPanic(quick)...)
 	cases = append(cases, famFlow(quick)...)
+	cases = append(cases, famLoops(quick)...)
 	return cases
 }
 
